@@ -100,6 +100,8 @@ def gen_cases(tier):
         for op in ("get", "get_many"):
             for vbs in enumerate_vbs(nmax):
                 yield {"driver": "split", "cfg": cfg.describe(), "op": op, "vbs": vbs, "report": False}
+            for vbs in enumerate_vbs(1):
+                yield {"driver": "split", "cfg": cfg.describe(), "op": op, "vbs": vbs, "report": False, "stale_first": True}
             if cfg.version == "v3":
                 for rr in ("echo", "zero", "other"):
                     yield {"driver": "split", "cfg": cfg.describe(), "op": op, "vbs": [], "report": True, "report_rid": rr}
@@ -180,12 +182,23 @@ def run_case(case, worlds=None):
             w = drivers.SplitWorld(cfg)
             if worlds is not None:
                 worlds[key] = w
+        stale = None
+        if case.get("stale_first"):
+            # an earlier request of the same kind went unanswered; its reply turns up now, ahead of the reply to this request:
+            # "the matching reply" is the one to the request outstanding
+            o = w.send(op, arg)
+            if o.kind != "ok":
+                return ("send-ok", None), o, 1
+            old_req = drivers.open_request(cfg, w.take_request(), strict=False, check_mac=False)
+            stale = drivers.reply_for(cfg, old_req, [(R, rb.enc_octets(b"stale"))])
         o = w.send(op, arg)
         if o.kind != "ok":
             return ("send-ok", None), o, 1
         data = w.take_request()
         req = drivers.open_request(cfg, data, strict=False, check_mac=False)
         rep, vbs = build_reply(cfg, req, case)
+        if stale is not None:
+            w.inject(stale)
         w.inject(rep)
         out = w.recv(op)
         if worlds is None:
@@ -239,7 +252,7 @@ def signature(case, exp, out):
         Cfg.from_desc(case["cfg"]).name,
         case["op"],
 ("report-new-epoch" if case.get("epoch") else "report-rid-" + case.get("report_rid", "echo")) if case.get("report") else ("silent" if case.get("silent") else "n=%d:%s" % (len(case["vbs"]), kinds)),
-        "" if not any(c == "dup" for _, c in case["vbs"]) else ":dup",
+        ("" if not any(c == "dup" for _, c in case["vbs"]) else ":dup") + (":after-a-late-reply-to-the-previous-request" if case.get("stale_first") else ""),
         out.exc_name if out.kind == "exc" else "value",
         exp[1] if exp[0] == "exc" else "value",
     )
